@@ -12,7 +12,7 @@ for d in sorted(glob.glob('/verif/seeded/C*')):
     ex = (re.findall(r'exit=(\d+)', t) or ['?'])[-1]
     head = re.search(r'^\[C\d+\].*$', t, re.M)
     nviol = int(re.search(r'violations=(\d+)', head.group(0)).group(1)) if head else 0
-    obl = sorted(set(re.findall(r'failed obligation: (\S+)', t)))
+    obl = sorted(set(o for o in re.findall(r'failed obligation: (\S+)', t) if '#' in o))   # bounded failures carry no '#'
     bounded = sorted(set(x for x in re.findall(r'replay=\S*/bounded-([^ ]+?)-[0-9a-f]{10}\.json', t)))
     withinput = len([l for l in t.splitlines() if l.startswith('VIOLATION') and 'no-failing-input-found' not in l])
     errs = re.findall(r'CHECKER-ERROR: (.*)', t)
